@@ -23,6 +23,10 @@
 (*   EqRootShortcut : VerifyConsistency returns nil as soon as             *)
 (*       old_root = new_root, before looking at sizes or proof             *)
 (*       (design: only for old_size = new_size with an empty proof).       *)
+(*       FIXED in the repository (commit aeca5f1a): FALSE in the configs.  *)
+(*   EqSizeIgnoresProof : for old_size = new_size and equal roots the      *)
+(*       proof is not looked at (as in the certificate-transparency        *)
+(*       reference); design: the proof must be empty.                      *)
 (*   ZeroOldShortcut: VerifyConsistency returns nil for old_size = 0       *)
 (*       whatever the roots and the proof are (design: the old root must   *)
 (*       be the empty hash and the proof empty).                           *)
@@ -35,6 +39,7 @@ EXTENDS Integers, Sequences, FiniteSets, TLC
 CONSTANTS MaxN,             \* bound on the block-root tree size
           MaxK,             \* bound on the cross-chain list size
           EqRootShortcut,   \* see above
+          EqSizeIgnoresProof, \* see above
           ZeroOldShortcut,  \* see above
           Tear,             \* TRUE: torn appends (crash between file write and tree-size commit) are explored
           MutLevel,         \* 1: small replacement universe, 2: every stored node and every prefix root
@@ -216,17 +221,17 @@ VConsA(old, nw, node, last, pos, p) ==            \* "for node != 0"
                ELSE VConsA(old, Node(nw, p[pos + 1]), node \div 2, last \div 2, pos + 1, p))
          ELSE VConsA(old, nw, node \div 2, last \div 2, pos, p)
     ELSE VConsB(old, nw, last, pos, p)
-VerifyConsSw(eq, zero, m, n, r1, r2, p) ==
+VerifyConsSw(eq, eqsz, zero, m, n, r1, r2, p) ==
     IF m > n THEN FALSE
-    ELSE IF eq /\ r1 = r2 THEN TRUE                                   \* deviation EqRootShortcut
-    ELSE IF ~eq /\ m = n THEN r1 = r2 /\ p = <<>>                    \* design
+    ELSE IF eq /\ r1 = r2 THEN TRUE                                   \* deviation EqRootShortcut (fixed)
+    ELSE IF m = n THEN r1 = r2 /\ (eqsz \/ p = <<>>)                 \* deviation EqSizeIgnoresProof / design
     ELSE IF m = 0 THEN (IF zero THEN TRUE ELSE r1 = EmptyH /\ p = <<>>)   \* deviation ZeroOldShortcut / design
     ELSE LET up == VConsUp(m - 1, n - 1) node == up[1] last == up[2] IN
          IF Len(p) = 0 THEN FALSE                                     \* "Wrong proof length"
          ELSE \E r \in {IF node # 0 THEN VConsA(p[1], p[1], node, last, 1, p) ELSE VConsA(r1, r1, node, last, 0, p)} :
                  r # ERR /\ r[2] = r2 /\ r[1] = r1 /\ r[3] = Len(p)
-VerifyCons(m, n, r1, r2, p) == VerifyConsSw(FALSE, FALSE, m, n, r1, r2, p)
-VerifyConsCoded(m, n, r1, r2, p) == VerifyConsSw(EqRootShortcut, ZeroOldShortcut, m, n, r1, r2, p)
+VerifyCons(m, n, r1, r2, p) == VerifyConsSw(FALSE, FALSE, FALSE, m, n, r1, r2, p)
+VerifyConsCoded(m, n, r1, r2, p) == VerifyConsSw(EqRootShortcut, EqSizeIgnoresProof, ZeroOldShortcut, m, n, r1, r2, p)
 
 (****************************** Part A: state *******************************)
 VARIABLES n,        \* tree size known to the tree object (and persisted by the ledger)
